@@ -107,6 +107,8 @@ Variable N R : Z.
 Hypothesis HR : 0 <= R.
 Variable L : list Ops.op.
 Variable kd : rkind. Variable oram odisk : Z.       (* the fields of the object that the run does not depend on *)
+Variable T : Z.                                      (* the forward steps of the whole stream *)
+Definition sumflen (l : list action) : Z := fold_right (fun a s => MSTerm.flen a + s) 0 l.
 
 Definition rstate (i : nat) (c : cst) (p : list action) : rst := {| ops := L; idx := i; cs := c; pend := p; exhausted := false; finished := false |}.
 Definition rdone (i : nat) (c : cst) : rst := {| ops := L; idx := i; cs := c; pend := []; exhausted := true; finished := true |}.
@@ -139,14 +141,14 @@ Proof.
 Qed.
 
 Notation pRp := (RevBridge2.pR N R).
-Definition Fut (i : nat) (c : cst) (p : list action) (x : RevBlk.xst) : Prop :=
-  exists acts cf xf, convI N (length L - i) L i c = (acts, inl cf) /\ RevBlk.execs N R x (p ++ acts) = Some xf /\
+Definition Fut (i : nat) (c : cst) (p : list action) (x : RevBlk.xst) (d : Z) : Prop :=
+  exists acts cf xf, convI N (length L - i) L i c = (acts, inl cf) /\ RevBlk.execs N R x (p ++ acts) = Some xf /\ d + sumflen (p ++ acts) = T /\
     snaps cf = [] /\ RevBlk.store xf = [] /\ RevBlk.rr xf = N /\ RevBlk.endfwd xf = true.
 Definition rsched (r : rst) (stt : bool) : sched := {| ob := ORevF kd N oram odisk r; started := stt |}.
 Inductive J : sched -> mon -> Prop :=
  | Jrun i c p x d stt m : (i <= length L)%nat -> mon_ok m -> Rx (toMS d x) (mx m) -> RevBridge2.NN R x -> WD x ->
-     AgP N R c x p -> Forall RevBridge2.rev_clears p -> Fut i c p x -> J (rsched (rstate i c p) stt) m
- | Jdone i c stt m : mon_ok m -> J (rsched (rdone i c) stt) m.
+     AgP N R c x p -> Forall RevBridge2.rev_clears p -> Fut i c p x d -> J (rsched (rstate i c p) stt) m
+ | Jdone i c stt m : mon_ok m -> fwd_total (cnt (mx m)) = T -> J (rsched (rdone i c) stt) m.
 
 (* one emitted action against the monitor *)
 Lemma emit_ok i' c' rest x d a x1 m (exh : bool) sch' :
@@ -174,12 +176,12 @@ Proof. cbn [RevBlk.execs]. destruct (RevBlk.exec N R x a) as [x1|]; [|discrimina
 Lemma J_step sch m : J sch m -> mon_ok m -> good_step pRp J sch m.
 Proof.
   intros HJ _. unfold good_step.
-  inversion HJ as [i c p x d stt m0 Hi Hm HRx HNN HWD HAg Hcl HFut|i c stt m0 Hm]; subst; clear HJ.
+  inversion HJ as [i c p x d stt m0 Hi Hm HRx HNN HWD HAg Hcl HFut|i c stt m0 Hm Htot]; subst; clear HJ.
   - destruct p as [|a rest].
     + (* nothing pending: advance *)
       unfold Sched.next, rsched. cbn [ob]. unfold RevConv.next. cbn [rstate finished pend ops idx].
       change {| ops := L; idx := i; cs := c; pend := []; exhausted := false; finished := false |} with (rstate i c []).
-      destruct HFut as (acts & cf & xf & Hconv & Hexs & Hsn & Hst & Hrr & Hef). cbn [app] in Hexs. cbn [AgP] in HAg.
+      destruct HFut as (acts & cf & xf & Hconv & Hexs & HT & Hsn & Hst & Hrr & Hef). cbn [app] in Hexs, HT. cbn [AgP] in HAg.
       pose proof (advance_spec (fun c => agree c x)
                     (fun i0 c0 c1 HP E => conv1_agree N R L i0 c0 c1 [] x E HP HWD)
                     (S (length L - i)) i c acts cf ltac:(lia) Hi HAg Hconv) as Hadv.
@@ -190,7 +192,7 @@ Proof.
         set (sch' := {| ob := ORevF kd N oram odisk (rdone (length L) cf); started := true |}).
         assert (Hexec : exec pRp (negb (isnone (get_max_n sch'))) (is_exhausted sch') (mx m) EndReverse = inl (apply pRp true (mx m) EndReverse)) by (apply exec_ok; exact Hchk).
         rewrite (mon_step_ok pRp sch' EndReverse m _ Hm Hexec).
-        -- split; [reflexivity|]. apply (Jdone (length L) cf true). reflexivity.
+        -- split; [reflexivity|]. apply (Jdone (length L) cf true); [reflexivity|]. cbn [mx]. destruct HRx' as (_ & _ & _ & _ & _ & _ & _ & Rtot). rewrite Rtot. cbn [toMS MSPot.done sumflen fold_right] in *. lia.
         -- destruct HRx' as (Rf & _). rewrite Rf. cbn [toMS MSPot.fwd]. destruct HPcf as [Af Ar]. rewrite Af.
            cbn [get_max_n sch' ob isnone andb]. unfold get_n. cbn [sch' ob cs rdone]. apply Z.eqb_refl.
         -- destruct HRx' as (_ & _ & _ & Rr & _). rewrite Rr. cbn [toMS MSPot.rr]. destruct HPcf as [Af Ar]. rewrite Ar. reflexivity.
@@ -198,21 +200,21 @@ Proof.
       * destruct Hadv as (i' & c0 & c' & rest & acts' & Hadv & Hi' & Htl & Hconv' & HP0 & Hc1). rewrite Hadv.
         destruct (execs_cons x a tl xf Hexs) as (x1 & Hex1 & Hexs1).
         pose proof (conv1_agree N R L (i' - 1) c0 c' (a :: rest) x Hc1 HP0 HWD) as HAg'. cbn [AgP] in HAg'. destruct (HAg' x1 Hex1) as [HA1 HAr].
-        pose proof (conv1_clears N L (i' - 1) c0 c' (a :: rest) Hc1) as Hcl'. inversion Hcl' as [|? ? Hcla Hclr]; subst.
+        pose proof (conv1_clears N L (i' - 1) c0 c' (a :: rest) Hc1) as Hcl'. apply Forall_cons_iff in Hcl'. destruct Hcl' as [Hcla Hclr]. rewrite Htl in Hexs1, HT.
         destruct (emit_ok i' c' rest x d a x1 m false _ eq_refl Hm HRx HNN Hcla Hex1 HA1) as (m' & Hms & Hm' & HRx' & HNN').
         cbv iota in Hms. unfold rsched in Hms. rewrite Hms. split; [exact Hm'|].
         apply (Jrun i' c' rest x1 (d + MSTerm.flen a) true m' Hi' Hm' HRx' HNN' (exec_WD N R x a x1 Hex1 HWD) HAr Hclr).
-        exists acts', cf, xf. repeat split; assumption.
+        exists acts', cf, xf. unfold sumflen in *. cbn [fold_right] in HT. repeat split; try assumption. lia.
     + (* an action is pending *)
       unfold Sched.next, rsched. cbn [ob]. unfold RevConv.next. cbn [rstate finished pend ops idx cs exhausted].
       change {| ops := L; idx := i; cs := c; pend := rest; exhausted := false; finished := false |} with (rstate i c rest).
-      destruct HFut as (acts & cf & xf & Hconv & Hexs & Hfin). cbn [app] in Hexs.
+      destruct HFut as (acts & cf & xf & Hconv & Hexs & HT & Hfin). cbn [app] in Hexs, HT.
       destruct (execs_cons x a (rest ++ acts) xf Hexs) as (x1 & Hex1 & Hexs1).
-      cbn [AgP] in HAg. destruct (HAg x1 Hex1) as [HA1 HAr]. inversion Hcl as [|? ? Hcla Hclr]; subst.
+      cbn [AgP] in HAg. destruct (HAg x1 Hex1) as [HA1 HAr]. apply Forall_cons_iff in Hcl. destruct Hcl as [Hcla Hclr].
       destruct (emit_ok i c rest x d a x1 m false _ eq_refl Hm HRx HNN Hcla Hex1 HA1) as (m' & Hms & Hm' & HRx' & HNN').
       cbv iota in Hms. unfold rsched in Hms. rewrite Hms. split; [exact Hm'|].
       apply (Jrun i c rest x1 (d + MSTerm.flen a) true m' Hi Hm' HRx' HNN' (exec_WD N R x a x1 Hex1 HWD) HAr Hclr).
-      exists acts, cf, xf. split; [exact Hconv|]. split; [exact Hexs1|exact Hfin].
-  - unfold Sched.next, rsched. cbn [ob]. unfold RevConv.next. cbn [rdone finished]. apply (Jdone i c true). exact Hm.
+      exists acts, cf, xf. unfold sumflen in *. cbn [fold_right] in HT. split; [exact Hconv|]. split; [exact Hexs1|]. split; [lia|exact Hfin].
+  - unfold Sched.next, rsched. cbn [ob]. unfold RevConv.next. cbn [rdone finished]. apply (Jdone i c true); assumption.
 Qed.
 End RUN.
